@@ -144,4 +144,296 @@ theorem rVals_eq_map (evalf : List F → F) (polys : List (List F)) :
 
 end Ref
 
+/-! ### lengths: the folded array has `largest` cells through all loops -/
+section Lengths
+variable {F : Type} (zero : F) (add sub mul : F → F → F)
+
+theorem rLoop6_length (polys : List (List F)) (i : Int) (gammas : List F) (e : Int) (fuel : ℕ) (fp : List F) (pj : F) (j : Int) :
+    (rLoop6 zero add mul polys i gammas e fuel fp pj j).1.length = fp.length := by
+  induction fuel generalizing fp pj j with
+  | zero => rfl
+  | succ n ih =>
+    simp only [rLoop6]
+    split
+    · rw [ih]; simp [setAt]
+    · rfl
+
+theorem rLoop5_length (polys : List (List F)) (gammas : List F) (fuel : ℕ) (fp : List F) (i : Int) :
+    (rLoop5 zero add mul polys gammas fuel fp i).1.length = fp.length := by
+  induction fuel generalizing fp i with
+  | zero => rfl
+  | succ n ih =>
+    simp only [rLoop5]
+    split
+    · rw [ih, rLoop6_length]
+    · rfl
+
+theorem copy_length (dst src : List F) : (GoImp.copy dst src).length = dst.length := by
+  simp only [GoImp.copy, List.length_append, List.length_take, List.length_drop]
+  omega
+
+theorem rQuotArr_length (polys : List (List F)) (vals : List F) (γ z : F) (largest : Int) :
+    (rQuotArr zero add sub mul polys vals γ z largest).length = largest.toNat := by
+  simp [rQuotArr, gDivide_length, rLoop5_length, copy_length]
+
+/-- without a size error the largest length is at most the key length (and at least the start value) -/
+theorem rSizes_le (pkLen : Int) (polys : List (List F)) (L : Int) (hL : L ≤ pkLen)
+    (h : (rSizes pkLen polys L).2 = false) : (rSizes pkLen polys L).1 ≤ pkLen := by
+  induction polys generalizing L with
+  | nil => simpa [rSizes] using hL
+  | cons p rest ih =>
+    by_cases hb : (len p = 0) ∨ (len p > pkLen)
+    · simp [rSizes, if_pos hb] at h
+    · simp only [rSizes, if_neg hb] at h ⊢
+      apply ih _ _ h
+      split <;> omega
+
+end Lengths
+
+/-! ### in the exponent model -/
+section BatchModel
+variable (r : ℕ) [NeZero r]
+
+/-- `eval` of the hand model always returns a reduced value -/
+theorem eval_lt (p : List ℕ) (x : ℕ) : KZG.eval r p x < r := by
+  rw [eval_eq_foldr]
+  cases p with
+  | nil => exact rpos r
+  | cons a p => exact addm_lt r _ _
+
+omit [NeZero r] in
+theorem foldEvals_eq_eval (γ : ℕ) (vals : List ℕ) : foldEvals r γ vals = KZG.eval r vals γ := by
+  rw [eval_eq_foldr]; rfl
+
+omit [NeZero r] in
+/-- the claimed values of the reference loop are the model's (reduced coefficients) -/
+theorem rVals_model (polys : List (List ℕ)) (z : ℕ) (hp : ∀ p ∈ polys, ∀ c ∈ p, c < r) :
+    rVals 0 (fun p => gEval (addm r) (mulm r) 0 p z) polys = polys.map (fun p => KZG.eval r p z) := by
+  rw [rVals_eq_map]
+  apply List.map_congr_left
+  intro p hpm
+  exact gEval_model r p z (hp p hpm)
+
+/-- the folded evaluation of the reference is the model's `foldEvals` -/
+theorem fe_model (polys : List (List ℕ)) (z γ : ℕ) :
+    gEval (addm r) (mulm r) 0 (polys.map (fun p => KZG.eval r p z)) γ = foldEvals r γ (polys.map (fun p => KZG.eval r p z)) := by
+  rw [foldEvals_eq_eval, gEval_model]
+  intro v hv
+  obtain ⟨p, _, rfl⟩ := List.mem_map.1 hv
+  exact eval_lt r p z
+
+end BatchModel
+
+/-! ### the folded polynomial: the reference loops are `foldPolys` of the hand model -/
+section FoldModel
+variable (r : ℕ)
+
+/-- the largest length as the range loop computes it (start value ≥ −1) is the model's `foldl max` -/
+theorem rSizes_largest (pkLen : Int) (polys : List (List ℕ)) (L : Int) (hL : -1 ≤ L)
+    (h : (rSizes pkLen polys L).2 = false) :
+    (rSizes pkLen polys L).1.toNat = polys.foldl (fun m p => max m p.length) L.toNat := by
+  induction polys generalizing L with
+  | nil => simp [rSizes]
+  | cons p rest ih =>
+    by_cases hb : (len p = 0) ∨ (len p > pkLen)
+    · simp [rSizes, if_pos hb] at h
+    · simp only [rSizes, if_neg hb] at h ⊢
+      rw [List.foldl_cons, ih _ (by split <;> omega) h]
+      congr 1
+      by_cases hc : len p > L
+      · rw [if_pos hc]; rw [len_eq] at hc ⊢; omega
+      · rw [if_neg hc]; rw [len_eq] at hc; omega
+
+theorem addScaled_nil (s : ℕ) (acc : List ℕ) : addScaled r s acc [] = acc := by
+  cases acc <;> rfl
+
+theorem addScaled_length (s : ℕ) (acc p : List ℕ) : (addScaled r s acc p).length = acc.length := by
+  induction acc generalizing p with
+  | nil => cases p <;> rfl
+  | cons a acc ih => cases p with
+    | nil => rfl
+    | cons x p => simp [addScaled, ih]
+
+/-- the callback loop of `parallel.Execute` over [0, len p) is `addScaled` -/
+theorem rLoop6_spec (polys : List (List ℕ)) (i : Int) (gammas : List ℕ) (m j : ℕ) (fp : List ℕ) (pj : ℕ)
+    (hj : j + m = (idxD [] polys i).length) (hl : (idxD [] polys i).length ≤ fp.length) :
+    (rLoop6 0 (addm r) (mulm r) polys i gammas (len (idxD [] polys i)) m fp pj (j : Int)).1
+      = fp.take j ++ addScaled r (idxD 0 gammas (i - 1)) (fp.drop j) ((idxD [] polys i).drop j) := by
+  induction m generalizing j fp pj with
+  | zero =>
+    have hd : (idxD [] polys i).drop j = [] := by
+      have : j = (idxD [] polys i).length := by omega
+      rw [this]; exact List.drop_length
+    simp [rLoop6, hd, addScaled_nil]
+  | succ m ih =>
+    have hjp : j < (idxD [] polys i).length := by omega
+    have hjf : j < fp.length := by omega
+    have hlt : (j : Int) < len (idxD [] polys i) := by simp only [len_eq]; omega
+    have hi : (j : Int) + 1 = ((j + 1 : ℕ) : Int) := by omega
+    simp only [rLoop6, if_pos hlt]
+    rw [hi, ih (j + 1) _ _ (by omega) (by simp [setAt]; omega)]
+    simp only [setAt, Int.toNat_natCast, idxD_nat]
+    rw [List.take_set, take_succ_set _ _ _ hjf, List.drop_set_of_lt (by omega : j < j + 1)]
+    rw [List.drop_eq_getElem_cons hjf, List.drop_eq_getElem_cons hjp]
+    simp [addScaled, List.getD_eq_getElem?_getD, hjf, hjp]
+
+theorem rLoop6_addScaled (polys : List (List ℕ)) (i : Int) (gammas : List ℕ) (fp : List ℕ) (pj : ℕ)
+    (hl : (idxD [] polys i).length ≤ fp.length) :
+    (rLoop6 0 (addm r) (mulm r) polys i gammas (len (idxD [] polys i)) (len (idxD [] polys i) - 0).toNat fp pj 0).1
+      = addScaled r (idxD 0 gammas (i - 1)) fp (idxD [] polys i) := by
+  have h := rLoop6_spec r polys i gammas (idxD [] polys i).length 0 fp pj (by omega) hl
+  simpa [len_eq] using h
+
+/-- the outer loop over the polynomials 1, 2, … is the model's `foldl` over `rest.zip gammas` -/
+theorem rLoop5_spec (p0 : List ℕ) (rest : List (List ℕ)) (gammas : List ℕ) (m k : ℕ) (fp : List ℕ)
+    (hk1 : 1 ≤ k) (hk : k + m = (p0 :: rest).length) (hg : rest.length ≤ gammas.length)
+    (hl : ∀ p ∈ rest, p.length ≤ fp.length) :
+    (rLoop5 0 (addm r) (mulm r) (p0 :: rest) gammas m fp (k : Int)).1
+      = ((rest.drop (k - 1)).zip (gammas.drop (k - 1))).foldl (fun acc pg => addScaled r pg.2 acc pg.1) fp := by
+  induction m generalizing k fp with
+  | zero =>
+    have hd : rest.drop (k - 1) = [] := by
+      apply List.drop_eq_nil_of_le; simp at hk; omega
+    simp [rLoop5, hd]
+  | succ m ih =>
+    simp only [List.length_cons] at hk
+    have hkr : k - 1 < rest.length := by omega
+    have hkg : k - 1 < gammas.length := by omega
+    have hlt : (k : Int) < len (p0 :: rest) := by simp only [len_eq, List.length_cons]; omega
+    have hidx : idxD ([] : List ℕ) (p0 :: rest) (k : Int) = rest[k - 1] := by
+      obtain ⟨k', rfl⟩ : ∃ k', k = k' + 1 := ⟨k - 1, by omega⟩
+      simp [idxD, List.getD_eq_getElem?_getD] at hkr ⊢
+      simp [hkr]
+    have hgi : idxD 0 gammas ((k : Int) - 1) = gammas[k - 1] := by
+      have : ((k : Int) - 1).toNat = k - 1 := by omega
+      simp [idxD, this, List.getD_eq_getElem?_getD, hkg]
+    have hi : (k : Int) + 1 = ((k + 1 : ℕ) : Int) := by omega
+    have hpl : (idxD ([] : List ℕ) (p0 :: rest) (k : Int)).length ≤ fp.length := by
+      rw [hidx]; exact hl _ (List.getElem_mem _)
+    simp only [rLoop5, if_pos hlt]
+    rw [rLoop6_addScaled r _ _ _ _ _ hpl, hi, ih (k + 1) _ (by omega) (by simp; omega)
+      (by intro p hp; rw [addScaled_length]; exact hl p hp)]
+    rw [hidx, hgi]
+    have e1 : rest.drop (k - 1) = rest[k - 1] :: rest.drop (k + 1 - 1) := by
+      rw [List.drop_eq_getElem_cons hkr]; congr 2; omega
+    have e2 : gammas.drop (k - 1) = gammas[k - 1] :: gammas.drop (k + 1 - 1) := by
+      rw [List.drop_eq_getElem_cons hkg]; congr 2; omega
+    rw [e1, e2]
+    simp
+
+/-- `powers` grows at the end by one multiplication of its last entry -/
+theorem powers_snoc (τ s k : ℕ) (hk : 1 ≤ k) :
+    powers r τ s (k + 1) = powers r τ s k ++ [mulm r ((powers r τ s k).getD (k - 1) 0) τ] := by
+  induction k generalizing s with
+  | zero => omega
+  | succ k ih =>
+    cases k with
+    | zero => simp [powers]
+    | succ k =>
+      have := ih (mulm r s τ) (by omega)
+      rw [powers, this]
+      simp [powers]
+
+omit r in
+theorem powers_length' (r τ s n : ℕ) : (powers r τ s n).length = n := by
+  induction n generalizing s with
+  | zero => rfl
+  | succ n ih => simp [powers, ih]
+
+/-- the loop `gammas[i] = gammas[i-1]·γ` produces `[γ, γ², …, γⁿ]` -/
+theorem rLoop4_spec (γ n m k : ℕ) (hk1 : 1 ≤ k) (hk : k + m = n) :
+    (rLoop4 0 (mulm r) (n : Int) γ m (powers r γ γ k ++ List.replicate (n - k) 0) (k : Int)).1 = powers r γ γ n := by
+  induction m generalizing k with
+  | zero =>
+    have : k = n := by omega
+    subst this
+    simp [rLoop4]
+  | succ m ih =>
+    have hlt : (k : Int) < (n : Int) := by omega
+    have hi : (k : Int) + 1 = ((k + 1 : ℕ) : Int) := by omega
+    have hm1 : ((k : Int) - 1).toNat = k - 1 := by omega
+    simp only [rLoop4, if_pos hlt]
+    have hstep : setAt (powers r γ γ k ++ List.replicate (n - k) 0) (k : Int)
+        (mulm r (idxD 0 (powers r γ γ k ++ List.replicate (n - k) 0) ((k : Int) - 1)) γ)
+        = powers r γ γ (k + 1) ++ List.replicate (n - (k + 1)) 0 := by
+      have hget : idxD 0 (powers r γ γ k ++ List.replicate (n - k) 0) ((k : Int) - 1) = (powers r γ γ k).getD (k - 1) 0 := by
+        simp only [idxD, hm1, List.getD_eq_getElem?_getD]
+        rw [List.getElem?_append_left (by rw [powers_length']; omega)]
+      rw [hget, powers_snoc r γ γ k hk1]
+      obtain ⟨d, hd⟩ : ∃ d, n - k = d + 1 := ⟨n - k - 1, by omega⟩
+      have hd' : n - (k + 1) = d := by omega
+      simp only [setAt, Int.toNat_natCast, hd, hd', List.replicate_succ]
+      rw [List.set_append_right _ _ (by rw [powers_length'])]
+      simp [powers_length']
+    rw [hstep, hi, ih (k + 1) (by omega) (by omega)]
+
+/-- `copy(make(largest), p0)` is `p0` padded with zeros -/
+theorem copy_pad (p0 : List ℕ) (n : ℕ) (h : p0.length ≤ n) :
+    GoImp.copy (List.replicate n 0) p0 = p0 ++ List.replicate (n - p0.length) 0 := by
+  simp [GoImp.copy, Nat.min_eq_right h]
+
+end FoldModel
+
+section QuotModel
+variable (r : ℕ) [NeZero r]
+
+omit [NeZero r] in
+theorem le_foldl_max (polys : List (List ℕ)) (m : ℕ) :
+    m ≤ polys.foldl (fun m p => max m p.length) m ∧ ∀ p ∈ polys, p.length ≤ polys.foldl (fun m p => max m p.length) m := by
+  induction polys generalizing m with
+  | nil => simp
+  | cons q rest ih =>
+    obtain ⟨h1, h2⟩ := ih (max m q.length)
+    refine ⟨by simp only [List.foldl_cons]; omega, ?_⟩
+    intro p hp
+    simp only [List.foldl_cons]
+    rcases List.mem_cons.1 hp with rfl | hp'
+    · omega
+    · exact h2 p hp'
+
+/-- the quotient slice of the reference = the model's quotient of the folded polynomial (reduced coefficients, reduced γ, valid sizes) -/
+theorem rQuotArr_model (p0 : List ℕ) (rest : List (List ℕ)) (γ z : ℕ) (pkLen : ℕ)
+    (hp : ∀ p ∈ p0 :: rest, ∀ c ∈ p, c < r) (hγ : γ < r)
+    (h2 : (rSizes (pkLen : Int) (p0 :: rest) (-1)).2 = false) :
+    (rQuotArr 0 (addm r) (subm r) (mulm r) (p0 :: rest) ((p0 :: rest).map (fun p => KZG.eval r p z)) γ z
+        (rSizes (pkLen : Int) (p0 :: rest) (-1)).1).drop 1
+      = KZG.dividePolyByXminusA r
+          (foldPolys r ((p0 :: rest).foldl (fun m p => max m p.length) 0) (p0 :: rest) (powers r γ (γ % r) (p0 :: rest).length))
+          (foldEvals r γ ((p0 :: rest).map (fun p => KZG.eval r p z))) z := by
+  have hL := rSizes_largest (pkLen : Int) (p0 :: rest) (-1) (by omega) h2
+  have hL0 : (-1 : Int).toNat = 0 := rfl
+  rw [hL0] at hL
+  obtain ⟨_, hmax⟩ := le_foldl_max (p0 :: rest) 0
+  generalize hLg : (p0 :: rest).foldl (fun m p => max m p.length) 0 = Lg at hL hmax
+  have hlen : len (p0 :: rest) = ((rest.length + 1 : ℕ) : Int) := by simp [len_eq]
+  have hf1 : (len (p0 :: rest) - 1).toNat = rest.length := by rw [hlen]; omega
+  have hf2 : Int.toNat (len (p0 :: rest)) = rest.length + 1 := by rw [hlen]; omega
+  have hg0 : setAt (List.replicate (rest.length + 1) 0) 0 γ = powers r γ γ 1 ++ List.replicate (rest.length + 1 - 1) 0 := by
+    simp [setAt, powers, List.replicate_succ]
+  have hgam : (rLoop4 0 (mulm r) (len (p0 :: rest)) γ rest.length (setAt (List.replicate (rest.length + 1) 0) 0 γ) 1).1
+      = powers r γ γ (rest.length + 1) := by
+    rw [hg0, hlen]
+    exact rLoop4_spec r γ (rest.length + 1) rest.length 1 (by omega) (by omega)
+  have hidx0 : idxD ([] : List ℕ) (p0 :: rest) 0 = p0 := by simp [idxD]
+  have hfp0 : GoImp.copy (List.replicate Lg 0) p0 = p0 ++ List.replicate (Lg - p0.length) 0 :=
+    copy_pad p0 Lg (hmax p0 (by simp))
+  have h5 := rLoop5_spec r p0 rest (powers r γ γ (rest.length + 1)) rest.length 1 (p0 ++ List.replicate (Lg - p0.length) 0)
+    (by omega) (by simp; omega) (by rw [powers_length']; omega)
+    (by intro p hp'; have := hmax p (List.mem_cons_of_mem _ hp'); have := hmax p0 (by simp); simp; omega)
+  have hmod : p0.map (· % r) = p0 := by
+    conv_rhs => rw [← List.map_id p0]
+    apply List.map_congr_left
+    intro c hc
+    exact Nat.mod_eq_of_lt (hp p0 (by simp) c hc)
+  simp only [rQuotArr, gDivide_model, fe_model, hf1, hf2, hL, hgam, hidx0, hfp0]
+  have h5' : (rLoop5 0 (addm r) (mulm r) (p0 :: rest) (powers r γ γ (rest.length + 1)) rest.length
+      (p0 ++ List.replicate (Lg - p0.length) 0) 1).1
+      = foldPolys r Lg (p0 :: rest) (powers r γ (γ % r) (p0 :: rest).length) := by
+    have h1 : ((1 : ℕ) : Int) = 1 := rfl
+    rw [← h1, h5]
+    simp [foldPolys, hmod, Nat.mod_eq_of_lt hγ]
+  rw [h5']
+
+end QuotModel
+
 end GV.KzgOpenGen
